@@ -457,6 +457,48 @@ def r9_string_growth_is_bounded(ctx, rule="C08.R9"):
     ctx.require(rule, 1)
 
 
+def r10_child_helper_on_own_node(ctx, rule="C08.R10"):
+    """The traversal traits have two kinds of methods: `visit_expression(x)` looks at the node x
+    (and then at its parts), `visit_child_expressions(x)` looks only at the parts of x.  The second
+    is the tail of the first and must be applied to the node the method is working on.  Applied to a
+    child (an argument of the call being checked), the child itself is never looked at: a call that
+    is directly an argument of another call escapes the argument checks.  Every call of a
+    `*child*` method of the traversal traits must receive the method's own node, or a bare expression
+    that has no position of its own (an assignment target, the left side of a property) - never the
+    `.element` of a positioned child, which visit_expression would have taken whole."""
+    from . import c07
+    prog = ctx.prog
+    traits = (PCL, ER, VIS)
+    n = 0
+    for f in sorted(prog.fns.values(), key=lambda f: f.id):
+        if f.crate != "rusty_linter" or f.kind == "closure":
+            continue
+        tr = f.impl.get("trait") if f.impl else None
+        is_default = any(f.id == it["id"] for tid in traits for it in prog.traits[tid]["items"])
+        if tr not in traits and not is_default:
+            continue
+        pv = mir.Prov(f.body)
+        for b, t in f.body.calls():
+            nm = (t.get("cpath") or "").split("::")[-1]
+            if t.get("ctrait") not in traits or "child" not in nm or len(t["args"]) < 2:
+                continue
+            n += 1
+            ch = c07._proj_chain(pv.of_operand(t["args"][1]))
+            # `child.element` of a positioned child could have been handed to visit_expression(child);
+            # a bare Expression without a position (assignment target, left side of a property) cannot
+            skipped_node = ch is not None and len(ch[1]) > 1 and ch[1][-1] == "element"
+            ok = not skipped_node
+            name = f.path.split("::", 1)[1]
+            k = sum(1 for x in ctx.obs if x.key.startswith("%s:%s" % (rule, name)))
+            ctx.decide(ok, rule, "%s:%s%s" % (rule, name, "#%d" % k if k else ""), "%s:%s" % (f.file, t.get("ln")),
+                       "%s is applied to the method's own node" % nm,
+                       "%s applies %s to %s, a part of the node it is working on: that part itself is never "
+                       "visited, only what is nested inside it - a call that is directly an argument of another call "
+                       "is not checked (wrong argument count or type accepted, Type mismatch at run time)"
+                       % (name, nm, ".".join(ch[1]) if ch else "a derived value"))
+    ctx.require(rule, 3)
+
+
 def run(ctx):
     common.install(ctx)
     r1_traversal(ctx)
@@ -467,5 +509,6 @@ def run(ctx):
     c05.r6_error_unwinding(ctx, "C08.R7")
     common.r_stack_discipline(ctx, "C08.R8")
     r9_string_growth_is_bounded(ctx)
+    r10_child_helper_on_own_node(ctx)
     from . import panics
     panics.r_audit(ctx, "C08.R6", scope="backend")
